@@ -506,6 +506,8 @@ def check(pm: ProgramModel, ctx: Ctx) -> None:
               "nesting:report", where_cls, f"the report nests calls {seen_d[0]} deep on a chain of 6 and of 12 features alike",
               bad=f"the report nests calls {seen_d[0]} deep on a chain of 6 features and {seen_d[1]} on a chain of 12: the nesting "
                   f"grows with the depth of the tree, so a deep enough well-formed model ends in RecursionError")
+    from .c19 import op_sequences
+    op_sequences(pm, ctx, ModelBuilder(pm), [pm.cls(n_) for n_ in ('FMMetrics',) if pm.has_cls(n_)], "C17")
     ctx.floor(rule, "obligations", len(ctx.obligations), 60)
 
 
